@@ -6,10 +6,10 @@
 
 static void check_reads (int format, int ch, int rate, int t, int framewise)
 {	MEMF m ; SNDFILE *s ; SF_INFO ri ; const char *fn = vh_fname (format) ; int ts = vh_tsize [t], B = vh_block (format, ch, rate), i, j ;
-	long N = B > 1 ? 3 * B + B / 2 + 3 : 5003, F, got ; char *ref ;
+	long N = B > 1 ? 3 * B + B / 2 + 3 : 5003, F, got ; char *ref ; int KB = ((format & SF_FORMAT_SUBMASK) >= SF_FORMAT_ALAC_16 && (format & SF_FORMAT_SUBMASK) <= SF_FORMAT_ALAC_32) ? 4096 : B ;	/* packet length for the key classes */
 	if (N < 3000) N = 3000 + B / 2 + 3 ;		/* long enough for requests beyond the staging buffers even when the codec block is small (PAF 24: 10 frames) */
 	if (N * ch > 60000) N = 60000 / ch + 1 ;
-	if (vh_make_file (&m, format, ch, rate, N, 1) != 0) { vh_statf (1, "cannot_write:%s", fn) ; mv_free (&m) ; return ; }
+	if (vh_make_file (&m, format, ch, rate, N, 1 + ((t + framewise) & 1)) != 0) { vh_statf (1, "cannot_write:%s", fn) ; mv_free (&m) ; return ; }	/* two-tone or position-addressable noise */
 	s = vh_open_r (&m, format, ch, rate, &ri) ;
 	if (s == NULL) { vh_viol (vh_key ("C05|reopen-failed|%s", fn), "%s", sf_strerror (NULL)) ; mv_free (&m) ; return ; }
 	F = (long) ri.frames ; if (F < 0 || F > 2000000) { vh_viol (vh_key ("C05|frames-insane|%s", fn), "F=%ld", F) ; sf_close (s) ; mv_free (&m) ; return ; }
@@ -59,7 +59,7 @@ static void check_reads (int format, int ch, int rate, int t, int framewise)
 				{	if (r != exp) vh_viol (vh_key ("C05|read-count|%s|%s", fn, r < exp ? (p + r / ch >= got - got % B && B > 1 ? "short-in-last-block" : "short-before-end") : "long"),
 							"pos %ld of %ld (F=%ld, ch=%d), asked %ld items (%s), returned %ld, expected %ld", p, got, F, ch, k, vh_tname [t], r, exp) ;
 					if (r > 0 && memcmp (buf, ref + p * ch * ts, (size_t) (r < exp ? r : exp) * ts) != 0)
-						vh_viol (vh_key ("C05|read-data|%s", fn), "pos %ld, %ld items (%s): data differs from the sequential reference", p, r, vh_tname [t]) ;
+						vh_viol (vh_key ("C05|read-data|%s|%s|%s", fn, (KB > 1 && p + r / ch > got - got % KB) ? "in-last-block" : "before-last-block", ((t + framewise) & 1) ? "noise" : "two-tone"), "pos %ld of %ld (block %d), %ld items (%s): data differs from the sequential reference", p, got, KB, r, vh_tname [t]) ;
 					/* the part of the caller's buffer beyond r: untouched or zero-filled; at end of data (r == 0) it must be zero-filled */
 					{	long z = 0, c5 = 0, other = 0 ; for (a = r * ts ; a < k * ts ; a++) { if (buf [a] == 0) z++ ; else if (buf [a] == 0xA5) c5++ ; else other++ ; }
 						if (other) vh_viol (vh_key ("C05|read-tail-garbage|%s%s", fn, onebyte_odd ? "|trailing-bytes-shorter-than-a-frame,request-past-end" : ""), "pos %ld asked %ld got %ld: %ld bytes beyond the returned items hold neither the canary nor zero", p, k, r, other) ;
